@@ -94,3 +94,57 @@ def same(a, b):
     if isinstance(a, (int, str, bool)) or a is None:
         return a == b
     return a is b or a == b
+
+
+# ---- names the spec functions use natively ---------------------------------------------------
+from jsonpath_rfc9535 import JSONPathEnvironment, JSONPathError, JSONPathNode, JSONPathQuery  # noqa: E402
+from jsonpath_rfc9535.filter_expressions import (  # noqa: E402
+    BooleanLiteral, ComparisonExpression, Expression, FilterContext, FilterExpression, FilterExpressionLiteral,
+    FilterQuery, FloatLiteral, FunctionExtension, IntegerLiteral, LogicalExpression, NullLiteral, PrefixExpression,
+    RelativeFilterQuery, RootFilterQuery, StringLiteral)
+from jsonpath_rfc9535.function_extensions import Count, ExpressionType, FilterFunction, Length, Match, Search, Value  # noqa: E402
+from jsonpath_rfc9535.segments import JSONPathChildSegment, JSONPathRecursiveDescentSegment, JSONPathSegment  # noqa: E402
+from jsonpath_rfc9535.selectors import (  # noqa: E402
+    FilterSelector, IndexSelector, JSONPathSelector, NameSelector, SliceSelector, WildcardSelector)
+from jsonpath_rfc9535.tokens import Token  # noqa: E402
+
+
+def is_gen(x): return hasattr(x, "__next__")
+def is_enum(x): return isinstance(x, ExpressionType)
+def is_exc(x): return isinstance(x, BaseException)
+def is_userfunc(x): return isinstance(x, FilterFunction) and type(x) not in (Length, Count, Value, Match, Search)
+def pending(x): return None
+def raised(x): return False
+def exc_is(e, cls): return isinstance(e, cls)
+def float_of(v): return v
+def enum_ord(v): return list(type(v)).index(v)
+def py_equal(a, b): return a == b
+def is_pynum(v): return isinstance(v, (int, float))
+def is_pylist(v): return isinstance(v, list)
+def is_pyobject(v): return not isinstance(v, (type(None), bool, int, float, str, list, dict, tuple, _Nothing, ExpressionType))
+def obj_eq(a, b): return a == b
+def slice_parts(s): return (s.start, s.stop, s.step)
+def ucall(func, args): return func(*args)
+
+
+def regex_fullmatch(p, s):
+    import regex
+    from jsonpath_rfc9535.function_extensions._pattern import map_re
+    try:
+        return bool(regex.fullmatch(map_re(p), s))
+    except (TypeError, regex.error):
+        return False
+
+
+def regex_search(p, s):
+    import regex
+    from jsonpath_rfc9535.function_extensions._pattern import map_re
+    try:
+        return bool(regex.search(map_re(p), s))
+    except (TypeError, regex.error):
+        return False
+
+
+def iregexp_ok(p):
+    from iregexp_check import check
+    return check(p)
